@@ -115,6 +115,27 @@ func (c *Ctx) checkMatcherSemantics(r *Report, matcher *ssa.Function, rf *ssa.Fu
 	for _, cal := range c.moduleCallees(matcher) {
 		scan(cal)
 	}
+	// the evaluation below gives the matcher one table; a matcher that consults several (a literal table and a prefix
+	// index filled in lock-step, …) can only be evaluated together with the code that fills them (lifecycle evaluation)
+	nTables := 0
+	for _, fv := range matcher.FreeVars {
+		t := fv.Type()
+		if p, ok := t.(*types.Pointer); ok {
+			t = p.Elem()
+		}
+		if isLoggerMap(t) {
+			nTables++
+		}
+	}
+	for _, p := range matcher.Params {
+		if isLoggerMap(p.Type()) {
+			nTables++
+		}
+	}
+	if nTables > 1 {
+		r.Inconclusive(key, "the matcher consults %d tables; decided only together with the code that fills them", nTables)
+		return
+	}
 	shapes := tagShapes(int(maxK) + 2)
 	runs, mapIter := 0, false
 	var firstBad string
@@ -191,6 +212,10 @@ func (c *Ctx) checkMatcherSemantics(r *Report, matcher *ssa.Function, rf *ssa.Fu
 			if err != nil {
 				if _, isOOD := err.(oodError); isOOD {
 					oodWhy = err.Error()
+					break
+				}
+				if harnessPanic(err) {
+					oodWhy = "the evaluation could not build the matcher's environment (" + err.Error() + ")"
 					break
 				}
 				if firstBad == "" {
@@ -625,4 +650,14 @@ func sortedKeys(m map[string]AV) []string {
 	}
 	sort.Strings(ks)
 	return ks
+}
+
+// harnessPanic: a modelled panic that more likely comes from an incomplete environment built by the evaluation than
+// from the code under analysis (a nil field the evaluation did not know how to fill).
+func harnessPanic(err error) bool {
+	pe, ok := err.(panicError)
+	if !ok {
+		return false
+	}
+	return strings.Contains(pe.why, "nil pointer dereference") || strings.Contains(pe.why, "method call on nil interface") || strings.Contains(pe.why, "interface conversion") || strings.Contains(pe.why, "call of nil function")
 }
